@@ -14,6 +14,14 @@ import sysconfig
 import tempfile
 import time
 
+# the extracted models recurse structurally over byte lists: give child processes (driver, coqc) the full stack
+try:
+    import resource
+    _soft, _hard = resource.getrlimit(resource.RLIMIT_STACK)
+    resource.setrlimit(resource.RLIMIT_STACK, (_hard, _hard))
+except Exception:
+    pass
+
 VERIF = os.path.dirname(os.path.dirname(os.path.dirname(os.path.abspath(__file__))))
 REPO = os.environ.get("VERIF_REPO", "/repo")
 COQ = os.path.join(VERIF, "coq")
@@ -163,9 +171,15 @@ def coq_build(generators=(), timeout=3000):
         for g in generators:
             try:
                 g()
-            except Exception as e:  # translator fails closed
+            except Exception as e:  # translator fails closed: its outputs are invalidated, dependents stop compiling
                 res["ok"] = False
-                res["gen_errors"].append("%s: %s" % (getattr(g, "__name__", "gen"), e))
+                outs = list(getattr(g, "outputs", []))
+                res["gen_errors"].append({"gen": getattr(g, "gen_name", getattr(g, "__name__", "gen")), "error": str(e)[:500], "outputs": outs})
+                for o in outs:
+                    try:
+                        os.remove(os.path.join(COQ, o))
+                    except OSError:
+                        pass
         rc, out, err, _ = _run([sys.executable, os.path.join(VERIF, "tools", "mkproject.py")])
         if rc != 0:
             res["ok"] = False
@@ -414,10 +428,16 @@ class Ctx:
         if not self.build:
             return ["no build"]
         failed = list(self.build.get("failed", []))
-        bad = list(self.build.get("gen_errors", []))
+        bad = []
         if self.build.get("fatal"):
             bad.append(self.build["fatal"])
         clo = dep_closure("props/%s.v" % self.pid)
+        mine = getattr(self, "generators", None)
+        for ge in self.build.get("gen_errors", []):
+            # a failed translator counts when it declared no outputs (unknown reach), when one of its
+            # outputs is in this property's closure, or when the property module names it
+            if not ge["outputs"] or clo is None or any(o in clo for o in ge["outputs"]) or (mine and ge["gen"] in mine):
+                bad.append("translator %s failed (fail closed): %s" % (ge["gen"], ge["error"]))
         for f in failed:
             if clo is None or f in clo or f.startswith("extract/"):
                 bad.append("does not compile: " + f)
